@@ -6,6 +6,7 @@ import (
 	"github.com/llir/llvm/internal/enc"
 	"github.com/llir/llvm/ir"
 	"github.com/llir/llvm/ir/constant"
+	"github.com/llir/llvm/ir/enum"
 	"github.com/llir/llvm/ir/metadata"
 	"github.com/llir/llvm/ir/types"
 	"github.com/llir/llvm/ir/value"
@@ -325,7 +326,7 @@ func hC11Bytes(name string, n int) []byte {
 //vf:unwind 600
 //vf:shards 16
 func VfC11_StringSites() {
-	site := vfChoice("site", 11)
+	site := vfChoice("site", 14)
 	n := vfLen("n", 1, hC11N())
 	s := string(hC11Bytes("s", n))
 	m := ir.NewModule()
@@ -359,8 +360,26 @@ func VfC11_StringSites() {
 	case 9:
 		sp = &metadata.DISubprogram{MetadataID: 0, Distinct: true, Name: s, LinkageName: "l" + s}
 		m.MetadataDefs = append(m.MetadataDefs, sp)
-	default:
+	case 10:
 		f.Section = s
+	case 11: // the synchronisation scope of all five atomic instructions
+		p := constant.NewNull(types.NewPointer(types.I32))
+		one := constant.NewInt(types.I32, 1)
+		ld := b.NewLoad(types.I32, p)
+		ld.Atomic, ld.Ordering, ld.SyncScope, ld.Align = true, enum.AtomicOrderingSequentiallyConsistent, s, 4
+		st := b.NewStore(one, p)
+		st.Atomic, st.Ordering, st.SyncScope, st.Align = true, enum.AtomicOrderingSequentiallyConsistent, s, 4
+		b.NewFence(enum.AtomicOrderingSequentiallyConsistent).SyncScope = s
+		b.NewCmpXchg(p, one, one, enum.AtomicOrderingSequentiallyConsistent, enum.AtomicOrderingSequentiallyConsistent).SyncScope = s
+		b.NewAtomicRMW(enum.AtomicOpAdd, p, one, enum.AtomicOrderingSequentiallyConsistent).SyncScope = s
+	case 12: // operand bundle tag
+		c := b.NewCall(f)
+		c.OperandBundles = []*ir.OperandBundle{ir.NewOperandBundle(s, constant.NewInt(types.I32, 1))}
+	default: // partitions of function, alias and ifunc
+		f.Partition = s
+		m.NewAlias("al", g).Partition = s
+		res := m.NewFunc("res", types.NewPointer(types.NewFunc(types.Void)))
+		m.NewIFunc("ifn", res).Partition = s
 	}
 	b.NewRet(nil)
 	y := m.String()
@@ -412,8 +431,28 @@ func VfC11_StringSites() {
 		if d, isD := m2.MetadataDefs[0].(*metadata.DISubprogram); isD {
 			ok = vfAnd(d.Name == s, d.LinkageName == "l"+s)
 		}
-	default:
+	case 10:
 		ok = f2.Section == s
+	case 11:
+		is := f2.Blocks[0].Insts
+		if len(is) == 5 {
+			ld, ok0 := is[0].(*ir.InstLoad)
+			st, ok1 := is[1].(*ir.InstStore)
+			fe, ok2 := is[2].(*ir.InstFence)
+			cx, ok3 := is[3].(*ir.InstCmpXchg)
+			rm, ok4 := is[4].(*ir.InstAtomicRMW)
+			if ok0 && ok1 && ok2 && ok3 && ok4 {
+				ok = vfAnd(vfAnd(ld.SyncScope == s, st.SyncScope == s), vfAnd(fe.SyncScope == s, vfAnd(cx.SyncScope == s, rm.SyncScope == s)))
+			}
+		}
+	case 12:
+		if c, isC := f2.Blocks[0].Insts[0].(*ir.InstCall); isC && len(c.OperandBundles) == 1 {
+			ok = c.OperandBundles[0].Tag == s
+		}
+	default:
+		if len(m2.Aliases) == 1 && len(m2.IFuncs) == 1 {
+			ok = vfAnd(f2.Partition == s, vfAnd(m2.Aliases[0].Partition == s, m2.IFuncs[0].Partition == s))
+		}
 	}
 	vfAssert("C11.sites.roundtrip", ok)
 	vfAssert("C11.sites.print-fixpoint", m2.String() == y)
